@@ -132,9 +132,9 @@ struct Model
         auto cb = combsOf[hi];
         for (int c : cb)
             combInput(c, hi);
-        for (auto& l : links)
-            if (l.first == hi)
-                fulfil(l.second, v);
+        for (size_t i = 0; i < links.size(); ++i) // by index: a continuation run below may append a link
+            if (links[i].first == hi)
+                fulfil(links[i].second, v);
     }
     void reject(int hi, int e)
     {
@@ -149,9 +149,9 @@ struct Model
         auto cb = combsOf[hi];
         for (int c : cb)
             combInput(c, hi);
-        for (auto& l : links)
-            if (l.first == hi)
-                reject(l.second, e);
+        for (size_t i = 0; i < links.size(); ++i)
+            if (links[i].first == hi)
+                reject(links[i].second, e);
     }
     void makeOpen(int hi)
     {
